@@ -54,6 +54,9 @@ def cases(tier, seed):
         if n == 4:
             perms = [None, [3, 2, 1, 0], [1, 0, 2, 3], [0, 2, 1, 3], [1, 2, 3, 0]]
         if n == 3:
+            # an SLM mask that ends inside a time step (14 ns with dt = 10): rebuilding anything at resume must use the same matrix as the running simulation
+            for p in (None, [2, 0, 1]):
+                yield {"path": "tdvp", "shape": shape, "kind": "slm_offgrid", "perm": p}
             # a badly prepared atom (two active qubits + dark-atom padding in the snapshot), with and without reordering; XY exchange
             for p in (None, [2, 0, 1]):
                 yield {"path": "tdvp", "shape": shape, "kind": "dmm", "perm": p, "spam": [0, 1, 0]}
@@ -73,7 +76,12 @@ def _setup(case):
     import emu_mps as m
 
     n = len(kit.SHAPES[case["shape"]])
-    d = drives(case["kind"], 0.7, n)
+    if case["kind"] == "slm_offgrid":
+        spec = {"coords": kit.SHAPES[case["shape"]], "device": "mock", "basis": "rydberg", "slm": [0, 2],
+                "pulses": [{"amp": ["const", 14, 30.0], "det": ["const", 14, 0.0], "phase": 0.0}, {"amp": ["const", 16, 20.0], "det": ["const", 16, 5.0], "phase": 0.0}]}
+        d = None
+    else:
+        d = drives(case["kind"], 0.7, n)
     # shorten to 3 time steps of 10 ns
     def short(w):
         w = list(w)
@@ -81,14 +89,16 @@ def _setup(case):
         return w
 
     pulses = []
-    for p in d["pulses"] + d.get("extra", []):
+    for p in (d["pulses"] + d.get("extra", [])) if d else []:
         q = dict(p)
         q["amp"], q["det"] = short(p["amp"]), short(p["det"])
         q["amp"][1] = q["det"][1] = 30
         if "ch" in q:
             q["protocol"] = "no-delay"
         pulses.append(q)
-    spec = {"coords": kit.SHAPES[case["shape"]], "device": "mock", "basis": "xy" if case.get("xy") else "rydberg", "pulses": pulses}
+    if d is not None:
+        spec = {"coords": kit.SHAPES[case["shape"]], "device": "mock", "basis": "xy" if case.get("xy") else "rydberg", "pulses": pulses}
+    d = d or {}
     if "dmm" in d:
         spec["dmm"] = dict(d["dmm"], wfs=[["ramp", 30, 0.0, -8.0]])
     if "local_channel" in d:
